@@ -429,8 +429,11 @@ theorem execTask_inv (fuel : Nat) (r : R) (p : Part) (s s' : σ) (evs : List (Ev
   subst he1
   have h0 : Leaves ops r (({ range := r, part := p, env := s } : TS R σ).range :: evR ({ range := r, part := p, env := s } : TS R σ).evs) := by
     simpa using Leaves.refl (ops := ops) r
-  have hk0 : KidsOK E ({ range := r, part := p, env := s } : TS R σ).evs :=
-    ⟨fun _ _ hm => by cases hm, fun _ _ hm => by cases hm⟩
+  have hk0 : KidsOK E ({ range := r, part := p, env := s } : TS R σ).evs := by
+    constructor
+    · intro _ _ hm; cases hm
+    · intro _ _ hm; cases hm
+  -- (the initial event list is empty)
   have fin : Leaves ops r (evR t'.evs) ∧ KidsOK E t'.evs →
       Leaves ops r (evR t'.evs.reverse) ∧ KidsOK E t'.evs.reverse := by
     intro ⟨a, b⟩
@@ -479,9 +482,19 @@ theorem evR_parts [DecidableEq R] (evs : List (Ev R)) :
         List.map_append] at ih ⊢
       omega
 
+theorem evDrops_nil_of (evs : List (Ev R)) (h : ∀ r, Ev.drop r ∉ evs) : evDrops evs = [] := by
+  unfold evDrops
+  rw [List.filterMap_eq_nil_iff]
+  intro e he
+  cases e with
+  | drop r => exact absurd he (h r)
+  | body _ => rfl
+  | spawn _ _ => rfl
+
 theorem runTasks_inv [DecidableEq R] {r0 : R} : ∀ (fuel : Nat) (work : List (R × Part)) (s : σ) (ran dropped ran' dropped' : List R) (s' : σ),
     Leaves ops r0 (work.map Prod.fst ++ ran ++ dropped) → (∀ x ∈ work, PartInv x.2) →
-    runTasks ops E fuel work s ran dropped = some (ran', dropped', s') → Leaves ops r0 (ran' ++ dropped') := by
+    runTasks ops E fuel work s ran dropped = some (ran', dropped', s') →
+    Leaves ops r0 (ran' ++ dropped') ∧ (NoCancel E → dropped' = dropped) := by
   intro fuel
   induction fuel with
   | zero => intro work s ran dropped ran' dropped' s' _ _ h; simp [runTasks] at h
@@ -492,7 +505,7 @@ theorem runTasks_inv [DecidableEq R] {r0 : R} : ∀ (fuel : Nat) (work : List (R
       simp only [runTasks, Option.some.injEq, Prod.mk.injEq] at h
       obtain ⟨h1, h2, _⟩ := h
       subst h1; subst h2
-      simpa using hl
+      exact ⟨by simpa using hl, fun _ => rfl⟩
     | cons x work =>
       obtain ⟨r, p⟩ := x
       simp only [runTasks] at h
@@ -500,7 +513,10 @@ theorem runTasks_inv [DecidableEq R] {r0 : R} : ∀ (fuel : Nat) (work : List (R
       · cases h
       · rename_i evs s1 hex
         obtain ⟨lt, kt⟩ := execTask_inv (ops := ops) (E := E) f r p s s1 evs (hw (r, p) (List.mem_cons_self)) hex
-        refine ih _ _ _ _ _ _ _ ?_ ?_ h
+        have := ih _ _ _ _ _ _ _ ?_ ?_ h
+        · refine ⟨this.1, fun hn => ?_⟩
+          rw [this.2 hn, evDrops_nil_of evs (kt.2 hn)]
+          rfl
         · have h1 : Leaves ops r0 (r :: (work.map Prod.fst ++ ran ++ dropped)) := by simpa using hl
           have h2 := h1.graft lt
           refine h2.perm ?_
